@@ -13,9 +13,7 @@ Open Scope Q_scope.
 Definition qz (z : Z) : Q := inject_Z z.
 Definition qd (m : Z) (e : N) : Q := Qmake m (match e with N0 => 1%positive | Npos p => Pos.pow 2 p end).   (* m / 2^e *)
 
-(* xpts: route points of main edges that boundingBox skips because an end is (inside) a shape whose near is
-   another shape -- part of the main diagram, not of the model's input *)
-Inductive case := Case (main : list gobj) (pts xpts : list (Q * Q)) (nears : list (nearobj * (Q * Q))).
+Inductive case := Case (main : list gobj) (pts : list (Q * Q)) (nears : list (nearobj * (Q * Q))).
 
 Definition tol : Q := 1 # 1000000.
 
@@ -32,19 +30,19 @@ Fixpoint all_pairs {A} (f : A -> A -> bool) (l : list A) : bool :=
           10 a near is not outside the main bounding box on a named side (exact, margin 0);
           11 a center near is not centred (1e-6); 12 distance to the box < 20 (1e-6);
           13 a later-phase near is not clear of a centre near placed before it.
-   10-12 are evaluated against [full_box] (all shapes of the main diagram, also those whose near is another
-   shape) when the main diagram has at least one shape (otherwise there is no box). *)
+   10-12 are evaluated against the box of the whole main diagram (also the shapes whose near is another
+   shape: GObjNear) when the main diagram has at least one shape (otherwise there is no box). *)
 Definition check_case (c : case) : list N :=
   match c with
-  | Case main pts xpts nears =>
+  | Case main pts nears =>
       let ns := map fst nears in
       let impl := map snd nears in
       let model := layout main pts ns in
       let corr := list_eqb pt_close model impl in
       let hyp_dims := forallb label_dims_ok_b ns in
-      let m := full_box main pts xpts in         (* bounding box of the whole main diagram *)
+      let m := bounding_box main pts in          (* bounding box of the whole main diagram *)
       let boxes := map (fun p => (n_key (fst p), near_box (fst p) (snd p))) nears in
-      let applies := has_shape_b (map plain main) in
+      let applies := has_shape_b main in
       let side := forallb (fun kb => side_ok_b 0 0 m (fst kb) (snd kb)) boxes in
       let margin := forallb (fun kb => side_ok_b pad tol m (fst kb) (snd kb)) boxes in
       let centred := forallb (fun kb => center_ok_b tol m (fst kb) (snd kb)) boxes in
